@@ -433,10 +433,40 @@ def check_cancellation_probes(R: Recorder) -> None:
                   detail=f"state {state} at scope depth {depth}: expected raise={expect}, raised={did} {extra}", case={"check": state, "depth": depth})
 
 
+def check_cancellation_elsewhere(R: Recorder) -> None:
+    """where no task is running - plain synchronous code, a worker thread of an `asynchronous` function - nobody was asked to cancel:
+    the check does not raise"""
+    from haiway import asynchronous, ctx
+
+    def probe() -> str:
+        try:
+            ctx.check_cancellation()
+            return "quiet"
+        except BaseException as exc:  # noqa: BLE001
+            return repr(exc)
+
+    seen: dict[str, str] = {"plain-sync-code": probe()}
+
+    @asynchronous
+    def worker() -> str:
+        return probe()
+
+    async def main() -> None:
+        seen["asynchronous-worker-thread"] = await worker()
+        async with ctx.scope("cc"):
+            seen["asynchronous-worker-thread-in-scope"] = await worker()
+
+    asyncio.run(main())
+    for where_, got in seen.items():
+        R.case({"check": where_}, nontrivial=True)
+        R.monitor("check-cancellation", got == "quiet", where={"kind": "raised-spuriously", "state": where_}, detail=f"ctx.check_cancellation() in {where_}: {got}", case={"check": where_})
+
+
 def run(R: Recorder, tier: str, seed: int, shard: int, nshards: int) -> None:
     R.flags["exhaustive_core"] = "every suspension point of every (small program, schedule) pair"
     if shard == 0:
         check_cancellation_probes(R)
+        check_cancellation_elsewhere(R)
     rng = random.Random(f"C07/{seed}/{shard}")
     for i, prog in enumerate(small_programs()):
         if i % nshards == shard:
@@ -451,6 +481,7 @@ def run(R: Recorder, tier: str, seed: int, shard: int, nshards: int) -> None:
 def replay(R: Recorder, rec: dict[str, Any]) -> None:
     if "check" in rec:
         check_cancellation_probes(R)
+        check_cancellation_elsewhere(R)
         return
     if rec.get("k") is None:
         out = run_once(rec["program"], rec["choices"], "first", None)
